@@ -86,7 +86,7 @@ def probe():
         c, shape, n, cands = job
         good = {pos: [s for s in cands if works(s, n, pos)] for pos in ('target', 'prereq')}
         return c, shape, (good if good['target'] and good['prereq'] else None)
-    unrep = {'mid': '', 'lead': '', 'trail': ''}
+    unrep = {'mid': '', 'lead': '', 'trail': '', 'archive': ''}
     spell = {}
     with ThreadPoolExecutor(16) as ex:
         for c, shape, good in ex.map(one, jobs):
@@ -94,6 +94,22 @@ def probe():
                 unrep[shape] += c
             else:
                 spell[(c, shape)] = good
+    # lib(member): the -p database cannot tell an archive member from a file of that name, so this
+    # one is probed through the observable itself: is the target up to date after it was built?
+    ok_spellings = []
+    for sp in ('a(b)', 'a\\(b\\)', 'a\\(b)', 'a(b\\)'):
+        mk = 'all: %s\n\t@true\n%s:\n\t@echo BUILDING; touch "a(b)"\n' % (sp, sp)
+        import os
+        import subprocess
+        with cf.Scratch() as sc:
+            sc.write('Makefile', mk)
+            r1 = subprocess.run([cf.MAKE, '-s'], cwd=sc.dir, capture_output=True)
+            r2 = subprocess.run([cf.MAKE, '-s'], cwd=sc.dir, capture_output=True)
+            if (r1.returncode == 0 and r2.returncode == 0 and b'BUILDING' in r1.stdout and
+                    b'BUILDING' not in r2.stdout and os.path.exists(sc.path('a(b)'))):
+                ok_spellings.append(sp)
+    if not ok_spellings:
+        unrep['archive'] = 'a(b)'
     return unrep, spell
 
 
@@ -105,6 +121,7 @@ def bounds(tier):
             'make_unrepresentable_anywhere': unrep['mid'],
             'make_unrepresentable_leading': unrep['lead'],
             'make_unrepresentable_trailing': unrep['trail'],
+            'make_archive_member_form_unrepresentable': bool(unrep['archive']),
             'ninja_unrepresentable': '|'}
 
 
@@ -112,6 +129,7 @@ def obligations(tier, kf):
     unrep, _ = probe()
     nmax = 2 if tier == 'quick' else 3
     excl = ''.join(sorted(set(unrep['mid'])))
+    kf = dict(kf, excl_archive=bool(unrep['archive']))
     obs = []
     T = {1: 120, 2: 300, 3: 1500}
     for shape in (0, 1, 2):
@@ -122,6 +140,8 @@ def obligations(tier, kf):
                 if fn == 'mo_dir_sentinel' and shape == 1:
                     continue
                 for n in range(1, nmax + 1):
+                    if tier == 'quick' and fn == 'ms_source_prereq' and (shape, rooti) == (0, 0):
+                        pass       # length 3 below
                     if tier == 'quick' and n == 2 and (shape, rooti) != (0, 0) and \
                             fn not in ('mt_target', 'md_prereq', 'nt_output', 'ms_source_prereq'):
                         continue
@@ -133,11 +153,17 @@ def obligations(tier, kf):
                     if n == 2 and shape == 0 and rooti == 0:
                         for m in MUTANTS.get(fn, []):
                             obs.append(ob.mutant(m))
+    if tier == 'quick':
+        # '[x]' needs three characters
+        obs.append(Ob('ms_source_prereq', dict(kf, N=3, shape=0, rooti=0, excl=excl, first='['),
+                      900, desc='ms_source_prereq shape#0 root#0 |c|==3 starting with ['))
+    obs.append(Ob('ms_source_prereq', dict(kf, N=3, shape=0, rooti=0, excl=excl, first='['),
+                  900).mutant('make_dep_no_bracket'))
     return obs
 
 
 MUTANTS = {'mt_target': ['make_target_no_colon'], 'md_prereq': ['make_dep_no_pipe'],
-           'ms_source_prereq': ['make_dep_no_bracket'], 'mi_include': ['make_include_double_escape'],
+           'mi_include': ['make_include_double_escape'],
            'nt_output': ['ninja_path_no_colon'], 'mr_auto_var': ['make_qvar_unquoted']}
 
 
